@@ -14,6 +14,9 @@ type Flow struct {
 	F    *FuncInfo
 	G    *cfg.CFG
 	info *types.Info
+
+	preds    map[*cfg.Block][]*cfg.Block
+	switchOf map[*ast.CaseClause]*ast.SwitchStmt
 }
 
 func (c *Ctx) flow(f *FuncInfo) *Flow {
@@ -72,15 +75,82 @@ func (fl *Flow) edgeFacts(b *cfg.Block, i int) []Fact {
 	if !ok {
 		return nil
 	}
-	// switch-case comparison blocks also have two successors, but their last node is the case
-	// expression (one half of tag==expr), not a boolean condition.
+	// switch-case comparison blocks also have two successors, but their last node is the case expression: one half of
+	// `tag == expr` for a tagged switch (the comparison is synthesised here), the condition itself for a tagless one.
+	if sw := fl.caseSwitch(b, last); sw != nil {
+		if sw.Tag == nil {
+			if tv, ok := fl.info.Types[last]; !ok || !isBool(tv.Type) {
+				return nil
+			}
+			return fl.expandPredicates(condFacts(last, i == 0), 0)
+		}
+		return []Fact{{E: &ast.BinaryExpr{X: sw.Tag, OpPos: last.Pos(), Op: token.EQL, Y: last}, Pos: i == 0}}
+	}
 	if tv, ok := fl.info.Types[last]; !ok || !isBool(tv.Type) {
 		return nil
 	}
-	if isCaseExpr(fl, b, last) {
+	return fl.expandPredicates(condFacts(last, i == 0), 0)
+}
+
+// caseSwitch: when e is a case expression that ends block b, the switch statement it belongs to.
+func (fl *Flow) caseSwitch(b *cfg.Block, e ast.Expr) *ast.SwitchStmt {
+	if !isCaseExpr(fl, b, e) {
 		return nil
 	}
-	return fl.expandPredicates(condFacts(last, i == 0), 0)
+	if fl.switchOf == nil {
+		fl.switchOf = map[*ast.CaseClause]*ast.SwitchStmt{}
+		ast.Inspect(fl.F.Body(), func(n ast.Node) bool {
+			if sw, ok := n.(*ast.SwitchStmt); ok {
+				for _, st := range sw.Body.List {
+					if cc, ok := st.(*ast.CaseClause); ok {
+						fl.switchOf[cc] = sw
+					}
+				}
+			}
+			return true
+		})
+	}
+	cc, _ := b.Succs[0].Stmt.(*ast.CaseClause)
+	return fl.switchOf[cc]
+}
+
+// condNodes: the nodes that were executed straight before the condition ending block b. For an if/for condition that
+// is b.Nodes; for a case expression of a tagged switch it is the block that evaluated the tag (the case comparisons
+// live in blocks of their own, chained by unique predecessors).
+func (fl *Flow) condNodes(b *cfg.Block) []ast.Node {
+	if len(b.Succs) != 2 || len(b.Nodes) == 0 {
+		return b.Nodes
+	}
+	last, ok := b.Nodes[len(b.Nodes)-1].(ast.Expr)
+	if !ok {
+		return b.Nodes
+	}
+	sw := fl.caseSwitch(b, last)
+	if sw == nil || sw.Tag == nil {
+		return b.Nodes
+	}
+	if fl.preds == nil {
+		fl.preds = map[*cfg.Block][]*cfg.Block{}
+		for _, x := range fl.G.Blocks {
+			for _, s := range x.Succs {
+				fl.preds[s] = append(fl.preds[s], x)
+			}
+		}
+	}
+	cur := b
+	for depth := 0; depth < 64; depth++ {
+		for k, n := range cur.Nodes {
+			if n == ast.Node(sw.Tag) {
+				return cur.Nodes[:k+1]
+			}
+		}
+		ps := fl.preds[cur]
+		if len(ps) != 1 {
+			break
+		}
+		cur = ps[0]
+	}
+	return b.Nodes
 }
 
 // expandPredicates: a fact about a call of a same-package predicate - a function without parameters whose body is the
